@@ -13,9 +13,13 @@ from fractions import Fraction
 class Gen:
     def __init__(self, rng: random.Random, gdim=2, with_args=False, math=True, compound=True, derivs=False,
                  cond=True, variables=True, reuse=0.7, division=True, literals=True, restricted=False, powers=True,
-                 tensor_cond=False):
+                 tensor_cond=False, base_elements=False):
         import ufl
         from utils import LagrangeElement
+        if base_elements:      # utils.FiniteElement itself: its repr evaluates back to the same type
+            from utils import FiniteElement
+            def LagrangeElement(cell, degree, shape=()):
+                return FiniteElement("Lagrange", cell, degree, shape, ufl.identity_pullback, ufl.H1)
         self.ufl = ufl
         self.rng = rng
         self.gdim = gdim
